@@ -552,7 +552,7 @@ static int chmd_fast_find(struct mschm_decompressor *base,
      * https://developercommunity.visualstudio.com/content/problem/363489/c4701-false-positive-warning.html */
     const unsigned char *chunk, *p = NULL, *end = NULL;
     int err = MSPACK_ERR_OK, result = -1;
-    unsigned int n, sec;
+    unsigned int n, sec, visits = 0;
 
     if (!self || !chm || !f_ptr || (f_size != sizeof(struct mschmd_file))) {
         return MSPACK_ERR_ARGS;
@@ -570,6 +570,11 @@ static int chmd_fast_find(struct mschm_decompressor *base,
     if (chm->index_root < chm->num_chunks) {
         n = chm->index_root;
         for (;;) {
+            /* no valid index visits more chunks than there are: it is cyclic */
+            if (visits++ > chm->num_chunks) {
+                sys->close(fh);
+                return self->error = MSPACK_ERR_DATAFORMAT;
+            }
             if (!(chunk = read_chunk(self, chm, fh, n))) {
                 sys->close(fh);
                 return self->error;
@@ -592,6 +597,11 @@ static int chmd_fast_find(struct mschm_decompressor *base,
         for (n = chm->first_pmgl; n <= chm->last_pmgl;
              n = EndGetI32(&chunk[pmgl_NextChunk]))
         {
+            /* no valid chain visits more chunks than there are: it is cyclic */
+            if (visits++ > chm->num_chunks) {
+                err = MSPACK_ERR_DATAFORMAT;
+                break;
+            }
             if (!(chunk = read_chunk(self, chm, fh, n))) {
                 err = self->error;
                 break;
